@@ -484,6 +484,7 @@ volatile int vh_seam_armed;
 char vh_req_log[256];
 vh_release_cb vh_on_release;
 vh_request_cb vh_on_request;
+vh_map_cb vh_on_map;
 struct vh_blk vh_ledger[512];
 int vh_nledger;
 long vh_bad_free;
@@ -573,6 +574,8 @@ mmap (void *addr, size_t len, int prot, int flags, int fd, off_t off)
       errno = -(int) (long) r;
       return MAP_FAILED;
     }
+  if (vh_on_map)
+    vh_on_map ('M', r, len);
   if (lib)
     {
       ledger_add (r, len, 'M');
@@ -589,6 +592,8 @@ int
 munmap (void *addr, size_t len)
 {
   struct vh_blk *b = vh_ledger_find (addr);
+  if (vh_on_map)
+    vh_on_map ('U', addr, len);
   if (vh_seam_armed)
     {
       vh_munmap_calls++;
